@@ -4460,3 +4460,180 @@ func runOptionalListWrittenWhenNonempty(rr *RuleRun) {
 		rr.Assumed("cty.Type.MarshalJSON/optional-guard", fd.Pos(), "no size test of the optional attribute set found (written unconditionally or in another form)")
 	}
 }
+
+// ---------------------------------------------------------------------------
+// C04.unmarked-marks-reapplied
+
+func init() {
+	register(&Rule{
+		ID: "C04.unmarked-marks-reapplied", Prop: "C04", Also: []string{"C11"}, Floor: 10, Controls: 0,
+		Doc: "consistency (belief) rule for the standard functions that handle marks themselves: where a callback peels the marks off a value into a variable (v, m := x.Unmark() / UnmarkDeep()) and collects them in a mark collection S that it re-applies to its results (WithMarks(S...)), S holds m on every successful return that re-applies S — a return that re-applies S before m was added to it, while other returns of the same function give m back through S, loses a mark of an input on that path only",
+		Run: runUnmarkedMarksReapplied,
+	})
+}
+
+func runUnmarkedMarksReapplied(rr *RuleRun) {
+	c := rr.Ctx
+	eachFuncBody(c, []string{"cty/function/stdlib"}, func(pkg string, fd *ast.FuncDecl, body *ast.BlockStmt) {
+		info := c.Info(pkg)
+		type peel struct {
+			as *ast.AssignStmt
+			m  types.Object
+		}
+		var peels []peel
+		inspectNoLit(body, func(n ast.Node) bool {
+			as, ok := n.(*ast.AssignStmt)
+			if !ok || len(as.Lhs) != 2 || len(as.Rhs) != 1 {
+				return true
+			}
+			call, ok := ast.Unparen(as.Rhs[0]).(*ast.CallExpr)
+			if !ok || !isCall(info, call, "cty.Value.Unmark", "cty.Value.UnmarkDeep") {
+				return true
+			}
+			if id, ok := as.Lhs[1].(*ast.Ident); ok && id.Name != "_" {
+				if o := objOf(info, id); o != nil {
+					peels = append(peels, peel{as, o})
+				}
+			}
+			return true
+		})
+		if len(peels) == 0 {
+			return
+		}
+		g := c.CFG(body, info)
+		isCollection := func(o types.Object) bool {
+			if o == nil {
+				return false
+			}
+			return strings.Contains(o.Type().String(), "cty.ValueMarks")
+		}
+		for _, p := range peels {
+			p := p
+			mk := objKey(p.m)
+			// every mark collection of the function: an empty m is vacuously held by all of them
+			var allColls []types.Object
+			seenColl := map[types.Object]bool{}
+			inspectNoLit(body, func(n ast.Node) bool {
+				if id, ok := n.(*ast.Ident); ok {
+					if o := info.ObjectOf(id); isCollection(o) && o != p.m && !seenColl[o] {
+						if _, isVar := o.(*types.Var); isVar {
+							seenColl[o] = true
+							allColls = append(allColls, o)
+						}
+					}
+				}
+				return true
+			})
+			spec := &FactSpec{Atom: func(cond ast.Expr, truth bool) []Fact {
+				// 'if len(m) > 0 { S = append(S, m) }': where m is empty there is nothing to add
+				be, ok := ast.Unparen(cond).(*ast.BinaryExpr)
+				if !ok {
+					return nil
+				}
+				lc, ok := ast.Unparen(be.X).(*ast.CallExpr)
+				if !ok || !isBuiltin(info, lc, "len") || len(lc.Args) != 1 || objOf(info, lc.Args[0]) != p.m {
+					return nil
+				}
+				k, isConst := constInt(info, be.Y)
+				if !isConst || k != 0 {
+					return nil
+				}
+				empty := (be.Op == token.GTR && !truth) || (be.Op == token.NEQ && !truth) || (be.Op == token.EQL && truth)
+				if !empty {
+					return nil
+				}
+				var out []Fact
+				for _, o := range allColls {
+					out = append(out, Fact{"holds", objKey(o) + "<" + mk})
+				}
+				return out
+			}}
+			spec.Effects = func(n ast.Node) []Effect {
+				as, ok := n.(*ast.AssignStmt)
+				if !ok || len(as.Lhs) != len(as.Rhs) {
+					return nil
+				}
+				var out []Effect
+				for i, l := range as.Lhs {
+					o := objOf(info, l)
+					if o == nil || o == p.m || !isCollection(o) {
+						continue
+					}
+					f := &Fact{"holds", objKey(o) + "<" + mk}
+					switch {
+					case mentionsObj(info, as.Rhs[i], p.m):
+						out = append(out, Effect{Assert: f}) // S = append(S, m), S = NewValueMarks(S, m), S := []ValueMarks{m}
+					case mentionsObj(info, as.Rhs[i], o):
+						out = append(out, Effect{Keep: f}) // S = append(S, other): what S held it still holds
+					}
+				}
+				return out
+			}
+			res := g.MustFacts(spec)
+			key := fmt.Sprintf("%s.%s/%s←%s", pkg, declName(fd), p.m.Name(), trunc(exprStr(p.as.Rhs[0]), 30))
+			type retInfo struct {
+				ret   *ast.ReturnStmt
+				colls []types.Object // mark collections re-applied by this return
+				holds map[types.Object]bool
+			}
+			var rets []retInfo
+			for _, ret := range g.Returns() {
+				if len(ret.Results) != 2 || !isNilIdent(info, ret.Results[1]) || !g.Dominates(p.as, ret) || !isCtyValue(info.TypeOf(ret.Results[0])) {
+					continue
+				}
+				fs, located := res.At(ret)
+				if !located {
+					continue
+				}
+				ri := retInfo{ret: ret, holds: map[types.Object]bool{}}
+				ast.Inspect(ret.Results[0], func(n ast.Node) bool {
+					if id, ok := n.(*ast.Ident); ok {
+						if o := info.Uses[id]; isCollection(o) && o != p.m {
+							ri.colls = append(ri.colls, o)
+							if fs.has("holds", objKey(o)+"<"+mk) {
+								ri.holds[o] = true
+							}
+						}
+					}
+					return true
+				})
+				rets = append(rets, ri)
+			}
+			// collections through which some return gives m back
+			carriers := map[types.Object]bool{}
+			for _, ri := range rets {
+				for o := range ri.holds {
+					carriers[o] = true
+				}
+			}
+			bad := false
+			for _, ri := range rets {
+				for _, o := range ri.colls {
+					if carriers[o] && !ri.holds[o] && !mentionsObj(info, ri.ret.Results[0], p.m) && !bad {
+						bad = true
+						rr.Violation(key, ri.ret.Pos(), fmt.Sprintf("this return re-applies the mark collection %s before the marks peeled off into %s were added to it on every path, although other returns of the same function give %s back through %s: on this path a mark of the input is lost", o.Name(), p.m.Name(), p.m.Name(), o.Name()))
+					}
+				}
+			}
+			if !bad {
+				if len(carriers) == 0 {
+					rr.OKTrivial(key, p.as.Pos(), "the peeled marks are not routed through a mark collection (re-applied directly, or handled by the caller)")
+				} else {
+					rr.OK(key, p.as.Pos(), fmt.Sprintf("%d successful return(s); every return that re-applies the carrying collection has the peeled marks in it", len(rets)))
+				}
+			}
+		}
+	})
+}
+
+func mentionsObj(info *types.Info, e ast.Node, o types.Object) bool {
+	found := false
+	ast.Inspect(e, func(n ast.Node) bool {
+		if id, ok := n.(*ast.Ident); ok && info.Uses[id] == o {
+			found = true
+		}
+		return !found
+	})
+	return found
+}
+
